@@ -71,7 +71,7 @@ ASSUMPTIONS = ['SequentialIntegerAttributeDecoder: PreparePortableAttribute / Ge
 for nc in [0] + list(range(1, 33)):
     J('DecodeIntegerValues.contract.nc%d' % nc, 'h_enf_SIAD_DecodeIntegerValues', ['C02', 'C03', 'C18'], enforce='SIAD_DecodeIntegerValues', loops=True, defines=DEFS + ['-DATTR_NC=%d' % nc],
       replace=['DecoderBuffer_DecodeBytes', 'DecodeSymbols', 'ConvertSymbolsToSignedInts_inplace', 'PS_AreCorrectionsPositive', 'PS_DecodePredictionData', 'PS_ComputeOriginalValues'],
-      timeout=900, cost=4, cbmc=['--object-bits', '11'], tier=None if nc in (0, 1, 2, 3, 4, 5, 6, 8) else 'thorough', no_vacuity=nc > 2)
+      timeout=900, cost=4, cbmc=['--object-bits', '11'], tier=None if nc in (0, 1, 2, 3, 4, 5, 6, 8) else 'thorough', no_vacuity=nc > 2, may_time_out=nc not in (0, 1, 2, 3, 4, 5, 6, 8))
 J('LinearSequencer.contract', 'h_enf_LinearSequencer_GenerateSequenceInternal', ['C03', 'C02'], enforce='LinearSequencer_GenerateSequenceInternal', loops=True, replace=['pid_resize', 'pid_push_back', 'pid_reserve', 'pid_clear'])
 J('rawvalues.rt', 'h_rawvalues_rt', ['C04', 'C05', 'C01'], unwind=34,
   unwind_reason='bounded: num_values <= 3 (loops over the values; 32-byte model initialisation; byte copies of <= 12 bytes); all symbol values; unwinding assertions on')
